@@ -16,6 +16,8 @@
 
 using namespace sim;
 
+extern "C" volatile uint32_t sim_block_once_calls, sim_block_guard_calls, sim_block_mutex_calls, sim_block_waits;  // blockwrap.cpp
+
 static const uint32_t kUnlimited = 0xFFFFFFFFu;
 static const uint64_t kSpinJump = 1000000000ull;  // == kTablesSpinLimit
 
@@ -471,6 +473,15 @@ static Result execute(const Plan& p, Stats& st) {
   st.add("fault.spin_timeouts_observed", timeouts);
   st.add("sim_spin_iterations", spin_adv);
   st.add("witness_runs", g_witness_runs.exchange(0));
+  {  // blocking primitives met by simulated threads (zero on the pinned tree: ada uses none)
+    static uint32_t last[4] = {0, 0, 0, 0};
+    uint32_t now[4] = {sim_block_once_calls, sim_block_guard_calls, sim_block_mutex_calls, sim_block_waits};
+    static const char* const nm[4] = {"block.once_calls", "block.static_guard_calls", "block.mutex_lock_calls", "block.waits_turned_into_yields"};
+    for (int i = 0; i < 4; i++) {
+      if (now[i] != last[i]) st.add(nm[i], now[i] - last[i]);
+      last[i] = now[i];
+    }
+  }
   if (inits > 1) st.add("probe.more_than_one_initialiser_runs");
   res.nontrivial = mode_b ? true : (lost > 0 || inits + lost > 0);
   if (lost > 0) st.add("runs_with_contended_first_use");
